@@ -190,6 +190,20 @@ CLAIMED["C15"] = (
     "beyond arity 3 and nested aggregates are not generated.",
     "DESIGN §5 C15")
 
+CLAIMED["C11"] = (
+    "TLA+ spec (ArrayBuild.tla: the generated loops of map!/from_fn!, map_!/from_fn_! and collect_const! with "
+    "per-slot init bits and closures that leave by break/continue/return/panic; invariant AssumePre at every "
+    "assume_init; the unguarded variant is refuted) model-checked by TLC; each explored (macro form, length, exit, "
+    "position) behaviour turned into programs for Copy and non-Copy elements whose observed ending is compared "
+    "with the model's",
+    "Exhaustive within bounds: lengths 0..3 x five closure exits x every exit position x four macros x two "
+    "element kinds (524 programs) + collect_const! and ArrayBuilder over-/under-filling (runtime and const fn): a "
+    "hostile closure must end in panic / non-termination (3 s timeout in an isolated process) / leaving the "
+    "function / rejection by rustc and never in a returned array; well-behaved closures must return std's array.",
+    "Trusted: TLC, rustc, the generator templates (exit keyed on the element). Uninitialised memory is observed "
+    "only through a wrong/garbage value or crash (Miri part is under C01).",
+    "DESIGN §5 C11")
+
 NOT_YET = {}
 
 def main():
